@@ -611,7 +611,10 @@ class RecordLayer(object):
                 contentType != ContentType.change_cipher_spec:
             data += bytearray([contentType])
             if self.padding_cb:
-                max_padding = self.send_record_limit - len(data) - 1
+                # the record may hold send_record_limit bytes of content plus
+                # the content type byte (already in data), so this is never
+                # negative
+                max_padding = self.send_record_limit + 1 - len(data)
                 # add number of zero bytes specified by padding_cb()
                 data += bytearray(self.padding_cb(len(data),
                                                   contentType,
